@@ -77,3 +77,22 @@ func TestVerifReplayStreamDecoding(t *testing.T) {
 		t.Fatalf("REPRODUCED: unparsable timestamp is not reported")
 	}
 }
+
+// A stream that failed stays failed: consumers that call Next again (a range aggregation does, at
+// its next step) must not find the error gone.
+func TestVerifReplayStickyStreamError(t *testing.T) {
+	var data []byte
+	data = append(data, verifFrame(1, "2024-01-01T00:00:01.000000001Z a\n")...)
+	data = append(data, verifFrame(1, "2024-01-01T00:00:02.000000001Z b\n")...)
+	data = data[:len(data)-3] // cut inside the second frame's body
+	it := ParseLog(verifRC{bytes.NewReader(data)}, otelstorage.Attrs{})
+	var rec logstorage.Record
+	for it.Next(&rec) {
+	}
+	if it.Err() == nil {
+		t.Skip("the cut was not reported at all (another obligation covers that)")
+	}
+	if it.Next(&rec) || it.Err() == nil {
+		t.Fatalf("REPRODUCED: after the stream failed inside a frame, calling Next once more clears the error (Err() == %v): a multi-step range query over this container returns a truncated result and no error", it.Err())
+	}
+}
